@@ -201,3 +201,451 @@ From V Require Proofs.ConstsTie.
 Theorem C03_constants_match_source : ConstsTie.secp256k1_is_source_stmt.
 Proof. exact ConstsTie.secp256k1_is_source. Qed.
 Print Assumptions C03_constants_match_source.
+
+(* ================================================================================================= *)
+(* Deepening pass: laws that follow from the formulas alone (any curve over a prime field), minimal     *)
+(* premises of group_laws, encodings without any group-law premise, converses of the parsers, the      *)
+(* object layer (== / !=, operands of two fields / curves, constructor), combine, compositions.        *)
+(* ================================================================================================= *)
+From V Require Import Model.PeccObj Proofs.CurveLawsP Proofs.EncGeneralP Proofs.Secp256k1P Proofs.SecpEncP
+  Proofs.PeccObjP Proofs.C03ExtP.
+From Coq Require Import Permutation.
+
+(* ------------------------------------------------------------------ any curve over a prime field *)
+
+(* commutativity of Point.__add__ — value AND exception behaviour — from the chord formula alone *)
+Theorem C03_add_comm_general : forall C, prime (cp C) -> 2 < cp C -> forall P Q,
+  valid C P -> valid C Q -> padd C P Q = padd C Q P.
+Proof. exact padd_comm. Qed.
+Print Assumptions C03_add_comm_general.
+
+(* closure in the totalised form used by group_laws *)
+Theorem C03_add_ok_general : forall C, prime (cp C) -> 2 < cp C -> forall P Q,
+  valid C P -> valid C Q -> padd C P Q = Ok (addT C P Q) /\ valid C (addT C P Q).
+Proof. exact add_ok_general. Qed.
+Print Assumptions C03_add_ok_general.
+
+(* a quadratic has two roots: the points above one x are P and -P *)
+Theorem C03_same_x_general : forall C, prime (cp C) -> 2 < cp C -> forall x y1 y2,
+  valid C (Some (x, y1)) -> valid C (Some (x, y2)) -> y2 = y1 \/ y2 = (- y1) mod cp C.
+Proof. exact same_x_general. Qed.
+Print Assumptions C03_same_x_general.
+
+(* inverses are unique: P + Q = infinity exactly when Q = -P *)
+Theorem C03_add_inf_iff : forall C, prime (cp C) -> 2 < cp C -> forall P Q,
+  valid C P -> valid C Q -> (padd C P Q = Ok None <-> Q = negT C P).
+Proof. exact padd_inf_iff. Qed.
+Print Assumptions C03_add_inf_iff.
+
+(* the y = 0 doubling case (fix 6d42726): P + P = infinity exactly for infinity and the points with y = 0 *)
+Theorem C03_double_inf_iff : forall C, prime (cp C) -> 2 < cp C -> forall P, valid C P ->
+  (padd C P P = Ok None <-> P = None \/ exists x, P = Some (x, 0)).
+Proof. exact double_inf_iff. Qed.
+Print Assumptions C03_double_inf_iff.
+
+(* the double-and-add loop needs no group law to stay on the curve: k*P never raises, every integer k *)
+Theorem C03_rmul_closed_general : forall C, prime (cp C) -> 2 < cp C -> forall k P, 0 < cn C ->
+  valid C P -> exists R, rmul C k P = Ok R /\ valid C R.
+Proof. exact rmul_closed. Qed.
+Print Assumptions C03_rmul_closed_general.
+
+Theorem C03_rmul_raw_closed_general : forall C, prime (cp C) -> 2 < cp C -> forall k P, 0 <= k ->
+  valid C P -> exists R, rmul_raw C k P = Ok R /\ valid C R.
+Proof. exact rmul_raw_closed. Qed.
+Print Assumptions C03_rmul_raw_closed_general.
+
+(* 0*P, 1*P, 2*P = P + P through the loop, closure only *)
+Theorem C03_rmul_small : forall C, prime (cp C) -> 2 < cp C -> forall P, valid C P ->
+  rmul_raw C 0 P = Ok None /\ rmul_raw C 1 P = Ok P /\ rmul_raw C 2 P = padd C P P.
+Proof.
+  intros C Hp Hp2 P HP. split; [reflexivity|]. split; [exact (rmul_raw_1 C Hp Hp2 P HP)|exact (rmul_raw_2 C Hp Hp2 P HP)].
+Qed.
+Print Assumptions C03_rmul_small.
+
+(* double-and-add = k-fold sum with ASSOCIATIVITY as the only premise beyond prime p *)
+Theorem C03_rmul_is_iterated_add_assoc : forall C, prime (cp C) -> 2 < cp C ->
+  (forall P Q R, valid C P -> valid C Q -> valid C R -> addT C (addT C P Q) R = addT C P (addT C Q R)) ->
+  forall k P, 0 <= k -> valid C P -> rmul_raw C k P = Ok (smul C (Z.to_nat k) P).
+Proof. exact rmul_is_iterated_add_assoc. Qed.
+Print Assumptions C03_rmul_is_iterated_add_assoc.
+
+(* the whole record group_laws C from: p, n prime; G on the curve; associativity; n kills every point.
+   Closure, commutativity, inverses and "G has order exactly n" are DERIVED. *)
+Theorem C03_group_laws_minimal : forall C, prime (cp C) -> 2 < cp C ->
+  (forall P Q R, valid C P -> valid C Q -> valid C R -> addT C (addT C P Q) R = addT C P (addT C Q R)) ->
+  prime (cn C) -> 2 < cn C -> valid C (G C) ->
+  (forall P, valid C P -> rmul_raw C (cn C) P = Ok None) -> group_laws C.
+Proof. exact group_laws_minimal. Qed.
+Print Assumptions C03_group_laws_minimal.
+
+(* ------------------------------------------------------------------ the secp256k1 constants *)
+
+(* decided in the kernel: G is on the curve; p = 3 mod 4; p < 2^256 *)
+Theorem C03_secp_constants : valid secp256k1 (G secp256k1) /\ cp secp256k1 mod 4 = 3 /\
+  cp secp256k1 < pow256 32 /\ ca secp256k1 = 0 /\ cn secp256k1 < cp secp256k1.
+Proof. exact (conj secp_G_valid (conj secp_p_mod4 (conj secp_p_lt256 (conj secp_a0 secp_n_lt_p)))). Qed.
+Print Assumptions C03_secp_constants.
+
+(* no point of order two and no point with x = 0 (power-residue criterion; premise: prime p only) *)
+Theorem C03_secp_no_y0_no_x0 : prime (cp secp256k1) -> forall x y, valid secp256k1 (Some (x, y)) ->
+  y <> 0 /\ x <> 0.
+Proof. intros Hp x y HV. split; [exact (secp_no_y0 Hp x y HV)|exact (secp_no_x0 Hp x y HV)]. Qed.
+Print Assumptions C03_secp_no_y0_no_x0.
+
+(* results lie on the curve: sums and all scalar multiples, premise prime p only *)
+Theorem C03_secp_closed : prime (cp secp256k1) -> forall P Q k t, valid secp256k1 P -> valid secp256k1 Q ->
+  (padd secp256k1 P Q = Ok (addT secp256k1 P Q) /\ valid secp256k1 (addT secp256k1 P Q)) /\
+  padd secp256k1 P Q = padd secp256k1 Q P /\
+  (exists R, rmul secp256k1 k P = Ok R /\ valid secp256k1 R) /\
+  (exists R, padd_int secp256k1 P t = Ok R /\ valid secp256k1 R).
+Proof.
+  intros Hp P Q k t HP HQ. split; [exact (secp_add_ok Hp P Q HP HQ)|]. split; [exact (secp_add_comm Hp P Q HP HQ)|].
+  split; [exact (secp_rmul_closed Hp k P HP)|exact (secp_padd_int_closed Hp P t HP)].
+Qed.
+Print Assumptions C03_secp_closed.
+
+(* what is left to assume for secp256k1 *)
+Theorem C03_secp_group_laws_minimal : prime (cp secp256k1) -> prime (cn secp256k1) ->
+  (forall P Q R, valid secp256k1 P -> valid secp256k1 Q -> valid secp256k1 R ->
+     addT secp256k1 (addT secp256k1 P Q) R = addT secp256k1 P (addT secp256k1 Q R)) ->
+  (forall P, valid secp256k1 P -> rmul_raw secp256k1 (cn secp256k1) P = Ok None) ->
+  group_laws secp256k1.
+Proof. exact secp_group_laws_minimal. Qed.
+Print Assumptions C03_secp_group_laws_minimal.
+
+(* ------------------------------------------------------------------ encodings without a group-law premise *)
+
+(* S256Field.sqrt for p = 3 mod 4: sound, complete, Err exactly on the non-residues *)
+Theorem C03_sqrt_spec : forall C, prime (cp C) -> cp C mod 4 = 3 -> forall a,
+  (forall s, fsqrt C a = Ok s -> 0 <= s < cp C /\ (s * s) mod cp C = a) /\
+  (0 <= a < cp C -> (exists y, (y * y) mod cp C = a) -> exists s, fsqrt C a = Ok s) /\
+  (0 <= a < cp C -> (fsqrt C a = Err <-> forall y, (y * y) mod cp C <> a)) /\
+  (~ 0 <= a < cp C -> fsqrt C a = Err).
+Proof.
+  intros C Hp H4 a. split; [intros s; exact (fsqrt_sound C Hp H4 a s)|]. split.
+  - intros Hr Hy. destruct (fsqrt_complete C Hp H4 a Hr Hy) as (s & E & _). eauto.
+  - split; [exact (fsqrt_err_iff C Hp H4 a)|exact (fsqrt_out_of_range C Hp H4 a)].
+Qed.
+Print Assumptions C03_sqrt_spec.
+
+(* SEC round trip, premises: prime p, a = 0, p = 3 mod 4, p < 2^256; y <> 0 needed for the compressed form only *)
+Theorem C03_sec_roundtrip_general : forall C, prime (cp C) -> ca C = 0 -> cp C mod 4 = 3 -> cp C < pow256 32 ->
+  forall x y c s, valid C (Some (x, y)) -> (c = true -> y <> 0) -> sec (Some (x, y)) c = Ok s ->
+  parse_sec C s = Ok (Some (x, y)) /\ parse_point C s = Ok (Some (x, y)).
+Proof.
+  intros C Hp Ha H4 H256 x y c s HV Hy Hs. split.
+  - exact (parse_sec_sec_gen C Hp Ha H4 H256 x y c s HV Hy Hs).
+  - exact (parse_point_sec_gen C Hp Ha H4 H256 x y c s HV Hy Hs).
+Qed.
+Print Assumptions C03_sec_roundtrip_general.
+
+(* ... and that side condition is sharp: the compressed encoding of a point with y = 0 is rejected by parse_sec *)
+Theorem C03_sec_compressed_y0_rejected : forall C, prime (cp C) -> ca C = 0 -> cp C mod 4 = 3 -> cp C < pow256 32 ->
+  forall x, valid C (Some (x, 0)) ->
+  sec (Some (x, 0)) true = Ok (2 :: to_be 32 x) /\ parse_sec C (2 :: to_be 32 x) = Err.
+Proof. exact parse_sec_compressed_y0_rejected. Qed.
+Print Assumptions C03_sec_compressed_y0_rejected.
+
+(* x-only round trip (y = 0 allowed) *)
+Theorem C03_xonly_roundtrip_general : forall C, prime (cp C) -> ca C = 0 -> cp C mod 4 = 3 -> cp C < pow256 32 ->
+  forall x y, valid C (Some (x, y)) -> x <> 0 ->
+  parse_xonly C (xonly (Some (x, y))) = Ok (Some (x, even_lift C y)).
+Proof. exact parse_xonly_xonly_gen. Qed.
+Print Assumptions C03_xonly_roundtrip_general.
+
+(* CONVERSE of the SEC round trip: parse_sec accepts exactly the SEC encodings of curve points, and an
+   accepted string is the canonical encoding of the returned point *)
+Theorem C03_parse_sec_iff : forall C, prime (cp C) -> ca C = 0 -> cp C mod 4 = 3 -> cp C < pow256 32 ->
+  forall b P, bytes_ok b ->
+  (parse_sec C b = Ok P <->
+   exists x y c, P = Some (x, y) /\ valid C P /\ sec P c = Ok b /\ (c = true -> y <> 0)).
+Proof. exact parse_sec_iff. Qed.
+Print Assumptions C03_parse_sec_iff.
+
+Theorem C03_parse_sec_err_iff : forall C, prime (cp C) -> ca C = 0 -> cp C mod 4 = 3 -> cp C < pow256 32 ->
+  forall b, bytes_ok b ->
+  (parse_sec C b = Err <->
+   forall x y c, valid C (Some (x, y)) -> (c = true -> y <> 0) -> sec (Some (x, y)) c <> Ok b).
+Proof. exact parse_sec_err_iff. Qed.
+Print Assumptions C03_parse_sec_err_iff.
+
+Theorem C03_parse_sec_canonical : forall C, cp C mod 4 = 3 -> forall b P,
+  bytes_ok b -> parse_sec C b = Ok P -> exists c, sec P c = Ok b.
+Proof. exact parse_sec_canonical. Qed.
+Print Assumptions C03_parse_sec_canonical.
+
+(* CONVERSE for x-only on 32 bytes *)
+Theorem C03_parse_xonly_iff : forall C, prime (cp C) -> ca C = 0 -> cp C mod 4 = 3 -> cp C < pow256 32 ->
+  forall b P, length b = 32%nat -> bytes_ok b -> from_be b <> 0 ->
+  (parse_xonly C b = Ok P <-> exists x y, P = Some (x, y) /\ valid C P /\ y mod 2 = 0 /\ xonly P = b).
+Proof. exact parse_xonly_iff. Qed.
+Print Assumptions C03_parse_xonly_iff.
+
+(* rejection by parse_xonly: x >= p, and x that is not the abscissa of a curve point *)
+Theorem C03_parse_xonly_rejects : forall C, prime (cp C) -> ca C = 0 -> cp C mod 4 = 3 -> forall b,
+  (cp C <= from_be b -> parse_xonly C b = Err) /\
+  (from_be b <> 0 -> (forall y, ~ valid C (Some (from_be b, y))) -> parse_xonly C b = Err).
+Proof.
+  intros C Hp Ha H4 b. split; [exact (parse_xonly_rejects_range C Hp Ha H4 b)|exact (parse_xonly_rejects C Hp H4 b)].
+Qed.
+Print Assumptions C03_parse_xonly_rejects.
+
+(* parse_xonly itself does not look at the length (leading zero bytes are ignored); S256Point.parse does *)
+Theorem C03_parse_xonly_leading_zero : forall C b, parse_xonly C (0 :: b) = parse_xonly C b.
+Proof. exact parse_xonly_leading_zero. Qed.
+Print Assumptions C03_parse_xonly_leading_zero.
+
+(* S256Point.parse: whatever is accepted is a curve point and the input is ITS canonical encoding *)
+Theorem C03_parse_sound_canonical : forall C, prime (cp C) -> cp C mod 4 = 3 -> forall b P,
+  bytes_ok b -> parse_point C b = Ok P ->
+  valid C P /\ ((length b = 32%nat /\ xonly P = b) \/ (P <> None /\ exists c, sec P c = Ok b)).
+Proof.
+  intros C Hp H4 b P B H. split; [exact (parse_point_valid C Hp H4 b P H)|exact (parse_point_canonical C Hp H4 b P B H)].
+Qed.
+Print Assumptions C03_parse_sound_canonical.
+
+(* layout of sec / xonly: lengths, byte range, prefix 2 + parity / 4; exceptions exactly on infinity *)
+Theorem C03_encoder_layout : forall P c,
+  (P = None -> sec P c = Err) /\
+  (forall x y, P = Some (x, y) -> exists b, sec P c = Ok b /\ bytes_ok b /\
+     length b = (if c then 33 else 65)%nat /\
+     b = (if c then (2 + y mod 2) :: to_be 32 x else 4 :: to_be 32 x ++ to_be 32 y)) /\
+  length (xonly P) = 32%nat /\ bytes_ok (xonly P).
+Proof.
+  intros P c. destruct (sec_layout P c) as [A B]. destruct (xonly_layout P) as [L O]. auto.
+Qed.
+Print Assumptions C03_encoder_layout.
+
+(* ---- the encodings clause on secp256k1 itself, premise: prime p ---- *)
+Theorem C03_secp_sec_roundtrip : prime (cp secp256k1) -> forall x y c s,
+  valid secp256k1 (Some (x, y)) -> sec (Some (x, y)) c = Ok s ->
+  parse_sec secp256k1 s = Ok (Some (x, y)) /\ parse_point secp256k1 s = Ok (Some (x, y)).
+Proof. exact secp_sec_roundtrip. Qed.
+Print Assumptions C03_secp_sec_roundtrip.
+
+(* every valid point INCLUDING infinity: the zero-bytes convention never collides with a curve point *)
+Theorem C03_secp_xonly_roundtrip : prime (cp secp256k1) -> forall P, valid secp256k1 P ->
+  parse_xonly secp256k1 (xonly P) = Ok (SecpEncP.evenP P) /\ parse_point secp256k1 (xonly P) = Ok (SecpEncP.evenP P).
+Proof. exact secp_xonly_roundtrip. Qed.
+Print Assumptions C03_secp_xonly_roundtrip.
+
+Theorem C03_secp_parse_sec_iff : prime (cp secp256k1) -> forall b P, bytes_ok b ->
+  (parse_sec secp256k1 b = Ok P <-> exists x y c, P = Some (x, y) /\ valid secp256k1 P /\ sec P c = Ok b).
+Proof. exact secp_parse_sec_iff. Qed.
+Print Assumptions C03_secp_parse_sec_iff.
+
+Theorem C03_secp_parse_sec_rejects : prime (cp secp256k1) -> forall b, bytes_ok b ->
+  (parse_sec secp256k1 b = Err <-> forall x y c, valid secp256k1 (Some (x, y)) -> sec (Some (x, y)) c <> Ok b).
+Proof. exact secp_parse_sec_rejects. Qed.
+Print Assumptions C03_secp_parse_sec_rejects.
+
+Theorem C03_secp_parse_xonly_iff : prime (cp secp256k1) -> forall b P, length b = 32%nat -> bytes_ok b ->
+  (parse_xonly secp256k1 b = Ok P <->
+   valid secp256k1 P /\ (forall x y, P = Some (x, y) -> y mod 2 = 0) /\ xonly P = b).
+Proof. exact secp_parse_xonly_iff. Qed.
+Print Assumptions C03_secp_parse_xonly_iff.
+
+Theorem C03_secp_parse_injective : prime (cp secp256k1) -> forall b1 b2 P,
+  bytes_ok b1 -> bytes_ok b2 -> length b1 = length b2 ->
+  parse_point secp256k1 b1 = Ok P -> parse_point secp256k1 b2 = Ok P -> b1 = b2.
+Proof. exact secp_parse_injective. Qed.
+Print Assumptions C03_secp_parse_injective.
+
+(* ------------------------------------------------------------------ from group_laws: layers connected *)
+
+(* generic Point.__rmul__ (no reduction) and S256Point.__rmul__ (coefficient mod n) agree for k >= 0 *)
+Theorem C03_rmul_raw_eq_rmul : forall C, group_laws C -> forall k P, 0 <= k -> valid C P ->
+  rmul_raw C k P = rmul C k P /\ rmul_raw C k P = rmul_raw C (k mod cn C) P.
+Proof. intros C GL k P Hk HP. split; [exact (rmul_raw_eq_rmul C GL k P Hk HP)|exact (rmul_raw_mod C GL k P Hk HP)]. Qed.
+Print Assumptions C03_rmul_raw_eq_rmul.
+
+Theorem C03_even_point : forall C, group_laws C -> forall x y, valid C (Some (x, y)) ->
+  even_point C (Some (x, y)) = Ok (Some (x, even_lift C y)) /\
+  valid C (Some (x, even_lift C y)) /\ even_lift C y mod 2 = 0 /\
+  xonly (Some (x, even_lift C y)) = xonly (Some (x, y)).
+Proof. exact even_point_spec. Qed.
+Print Assumptions C03_even_point.
+
+Theorem C03_even_point_idem : forall C, group_laws C -> forall x y, valid C (Some (x, y)) ->
+  exists E, even_point C (Some (x, y)) = Ok E /\ even_point C E = Ok E.
+Proof. exact even_point_idem. Qed.
+Print Assumptions C03_even_point_idem.
+
+Theorem C03_parity_and_infinity : forall C x y,
+  parity (Some (x, y)) = Ok (y mod 2) /\ parity None = Err /\ even_point C None = Err /\
+  sec None true = Err /\ sec None false = Err /\ xonly None = to_be 32 0.
+Proof. intros. repeat split. Qed.
+Print Assumptions C03_parity_and_infinity.
+
+(* parse(P.xonly()) = P.even_point() *)
+Theorem C03_parse_xonly_is_even_point : forall C, group_laws C -> ca C = 0 -> cp C mod 4 = 3 ->
+  cp C < pow256 32 -> forall x y, valid C (Some (x, y)) -> x <> 0 ->
+  parse_point C (xonly (Some (x, y))) = even_point C (Some (x, y)).
+Proof. exact parse_xonly_is_even_point. Qed.
+Print Assumptions C03_parse_xonly_is_even_point.
+
+(* PrivateKey(secret).point -> sec -> parse: the public point comes back, it is on the curve and not infinity *)
+Theorem C03_pubkey_sec_parse : forall C, group_laws C -> ca C = 0 -> cp C mod 4 = 3 -> cp C < pow256 32 ->
+  forall secret c P, pubkey C secret = Ok P ->
+  valid C P /\ P <> None /\ exists s, sec P c = Ok s /\ parse_point C s = Ok P /\ parse_sec C s = Ok P.
+Proof. exact pubkey_sec_parse. Qed.
+Print Assumptions C03_pubkey_sec_parse.
+
+(* keys that travelled as bytes add like their secrets *)
+Theorem C03_encoded_keys_add : forall C, group_laws C -> ca C = 0 -> cp C mod 4 = 3 -> cp C < pow256 32 ->
+  forall a b c1 c2 A B sa sb,
+  pubkey C a = Ok A -> pubkey C b = Ok B -> sec A c1 = Ok sa -> sec B c2 = Ok sb ->
+  exists S, (A' <- parse_point C sa ;; B' <- parse_point C sb ;; padd C A' B') = Ok S /\
+            rmul C (a + b) (G C) = Ok S /\ valid C S.
+Proof. exact encoded_keys_add. Qed.
+Print Assumptions C03_encoded_keys_add.
+
+(* S256Point.combine: the sum of the list, never an exception on curve points, IndexError on [], order-independent *)
+Theorem C03_combine : forall C, group_laws C -> forall ps, Forall (valid C) ps ->
+  (ps <> [] -> combine C ps = Ok (gsum C ps) /\ valid C (gsum C ps)) /\
+  combine C [] = Err /\
+  (forall qs, Permutation ps qs -> combine C ps = combine C qs).
+Proof.
+  intros C GL ps F. split; [intros H; exact (combine_ok C GL ps H F)|]. split; [reflexivity|].
+  intros qs HP. exact (combine_perm C GL ps qs HP F).
+Qed.
+Print Assumptions C03_combine.
+
+(* ------------------------------------------------------------------ the object layer *)
+
+(* == / != of FieldElement (either side may be None): equality of (num, prime); != is the negation *)
+Theorem C03_fe_eq : forall a b, (ofe_eqb a b = true <-> a = b) /\ ofe_neb a b = negb (ofe_eqb a b).
+Proof. intros a b. split; [exact (ofe_eqb_iff a b)|reflexivity]. Qed.
+Print Assumptions C03_fe_eq.
+
+(* elements of two fields: never equal, + - * / raise *)
+Theorem C03_fe_two_fields : forall x p y q, p <> q ->
+  fe_eqb (x, p) (y, q) = false /\ fe_neb (x, p) (y, q) = true /\
+  fe_add (x, p) (y, q) = Err /\ fe_sub (x, p) (y, q) = Err /\
+  fe_mul (x, p) (y, q) = Err /\ fe_div (x, p) (y, q) = Err.
+Proof.
+  intros x p y q H. destruct (fe_eq_other_field x p y q H) as [E1 E2].
+  destruct (fe_ops_mixed x p y q H) as (A & B & M & D). auto 7.
+Qed.
+Print Assumptions C03_fe_two_fields.
+
+(* Point.__eq__ / __ne__: equality of coordinates and curve *)
+Theorem C03_point_eq : forall P Q, (gp_eqb P Q = true <-> P = Q) /\ gp_neb P Q = negb (gp_eqb P Q).
+Proof. intros P Q. split; [exact (gp_eqb_iff P Q)|reflexivity]. Qed.
+Print Assumptions C03_point_eq.
+
+(* points of two curves are never equal and their sum raises (either order, infinity operands included) *)
+Theorem C03_point_two_curves : forall P Q, ga P <> ga Q \/ gb P <> gb Q ->
+  gp_eqb P Q = false /\ gp_neb P Q = true /\ gp_add P Q = Err /\ gp_add Q P = Err.
+Proof. exact gp_other_curve. Qed.
+Print Assumptions C03_point_two_curves.
+
+(* the constructor: a half-defined point is refused; a constructed finite point lives in ONE field *)
+Theorem C03_point_constructor : forall x y a b,
+  gp_mk (Some x) None a b = Err /\ gp_mk None (Some y) a b = Err /\
+  gp_mk None None a b = Ok {| gxy := None; ga := a; gb := b |} /\
+  (forall P, gp_mk (Some x) (Some y) a b = Ok P ->
+     P = {| gxy := Some (x, y); ga := a; gb := b |} /\ snd y = snd x /\ snd a = snd x /\ snd b = snd x).
+Proof.
+  intros x y a b. split; [reflexivity|]. split; [reflexivity|]. split; [reflexivity|].
+  intros P. exact (gp_mk_one_field x y a b P).
+Qed.
+Print Assumptions C03_point_constructor.
+
+(* on operands of one curve the object layer computes exactly Model/Pecc.v: constructor, +, k* *)
+Theorem C03_object_layer_refines : forall C, 0 < cp C -> forall P Q x y k,
+  gp_mk (Some (x, cp C)) (Some (y, cp C)) (ca C, cp C) (cb C, cp C) = (R <- mk_point C x y ;; Ok (inj C R)) /\
+  gp_add (inj C P) (inj C Q) = (R <- padd C P Q ;; Ok (inj C R)) /\
+  gp_rmul k (inj C P) = (R <- rmul_raw C k P ;; Ok (inj C R)) /\
+  (gp_eqb (inj C P) (inj C Q) = true <-> P = Q).
+Proof.
+  intros C Hp P Q x y k. split; [exact (gp_mk_refines C Hp x y)|]. split; [exact (gp_add_refines C Hp P Q)|].
+  split; [exact (gp_rmul_refines C Hp k P)|exact (gp_eqb_inj C P Q)].
+Qed.
+Print Assumptions C03_object_layer_refines.
+
+(* hence the group laws hold of the generic classes *)
+Theorem C03_object_layer_group : forall C, group_laws C -> forall P Q k, valid C P -> valid C Q -> 0 <= k ->
+  gp_add (inj C P) (inj C Q) = Ok (inj C (addT C P Q)) /\ valid C (addT C P Q) /\
+  gp_add (inj C P) (inj C Q) = gp_add (inj C Q) (inj C P) /\
+  gp_rmul k (inj C P) = Ok (inj C (smul C (Z.to_nat k) P)).
+Proof.
+  intros C GL P Q k HP HQ Hk. destruct (gp_add_group C GL P Q HP HQ) as (A & B & D).
+  split; [exact A|]. split; [exact B|]. split; [exact D|exact (gp_rmul_group C GL k P Hk HP)].
+Qed.
+Print Assumptions C03_object_layer_group.
+
+(* S256Point.__eq__ / __ne__ *)
+Theorem C03_s256_eq : forall P Q, (s_eqb P Q = true <-> P = Q) /\ (s_neb P Q = true <-> P <> Q) /\
+  s_neb P Q = negb (s_eqb P Q).
+Proof. intros P Q. split; [exact (s_eqb_iff P Q)|]. split; [exact (s_neb_iff P Q)|reflexivity]. Qed.
+Print Assumptions C03_s256_eq.
+
+(* ------------------------------------------------------------------ every prime field, no bound *)
+From V Require Import Proofs.FieldGeneralP.
+
+(* the field axioms of C03_field_axioms_small for EVERY prime p (secp256k1's p included, given its primality) *)
+Theorem C03_field_axioms_all : forall p, prime p -> field_laws p /\ pow_small_ok p.
+Proof. exact field_axioms_all. Qed.
+Print Assumptions C03_field_axioms_all.
+
+(* FieldElement.__pow__ is the power function: a ** e = a^e mod p for e >= 0; for e < 0 it is the inverse of a ** (-e) *)
+Theorem C03_pow_spec : forall C, prime (cp C) -> forall a e,
+  (0 <= e -> fpow C a e = (a ^ e) mod cp C) /\
+  (a mod cp C <> 0 -> e < 0 -> fmul C (fpow C a e) (fpow C a (- e)) = 1).
+Proof. intros C Hp a e. split; [exact (fpow_nonneg C Hp a e)|exact (fpow_negative C Hp a e)]. Qed.
+Print Assumptions C03_pow_spec.
+
+(* __truediv__ undoes __mul__ *)
+Theorem C03_div_undoes_mul : forall C, prime (cp C) -> forall a b, 0 <= a < cp C -> 0 < b < cp C ->
+  fdiv C (fmul C a b) b = a.
+Proof. exact fdiv_fmul. Qed.
+Print Assumptions C03_div_undoes_mul.
+
+(* the constructor S256Point(x, y) from ints accepts exactly the curve points *)
+Theorem C03_constructor_iff : forall C x y,
+  (forall P, mk_point_int C x y = Ok P <-> P = Some (x, y) /\ valid C (Some (x, y))) /\
+  (mk_point_int C x y = Err <-> ~ valid C (Some (x, y))).
+Proof. intros C x y. split; [intros P; exact (mk_point_int_iff C x y P)|exact (mk_point_int_err_iff C x y)]. Qed.
+Print Assumptions C03_constructor_iff.
+
+(* ------------------------------------------------------------------ the new hypotheses are satisfiable *)
+Example toy_prime_p : prime (cp toy) := toy_p_prime.
+Example toy_gt2 : 2 < cp toy. Proof. reflexivity. Qed.
+Example toy_add_comm_general := C03_add_comm_general toy toy_prime_p toy_gt2.
+Example toy_add_inf_iff := C03_add_inf_iff toy toy_prime_p toy_gt2.
+Example toy_assoc_hyp : forall P Q R, valid toy P -> valid toy Q -> valid toy R ->
+  addT toy (addT toy P Q) R = addT toy P (addT toy Q R) := gl_add_assoc toy toy_group_laws.
+Example toy_order_hyp : forall P, valid toy P -> rmul_raw toy (cn toy) P = Ok None := gl_order toy toy_group_laws.
+Example toy_group_laws_again : group_laws toy :=
+  C03_group_laws_minimal toy toy_prime_p toy_gt2 toy_assoc_hyp toy_n_prime eq_refl toy_G_valid toy_order_hyp.
+Example toy_parse_sec_iff := C03_parse_sec_iff toy toy_prime_p eq_refl eq_refl toy_pow256.
+Example toy_pubkey_sec_parse := C03_pubkey_sec_parse toy toy_group_laws eq_refl eq_refl toy_pow256.
+Example toy_pubkey_5 : pubkey toy 5 = rmul toy 5 (G toy) /\ exists P, pubkey toy 5 = Ok P /\ P <> None.
+Proof. split; [reflexivity|]. vm_compute. eexists. split; [reflexivity|discriminate]. Qed.
+Example toy_combine := C03_combine toy toy_group_laws.
+Example toy_combine_3 : combine toy [G toy; G toy; G toy] = rmul toy 3 (G toy).
+Proof. vm_compute. reflexivity. Qed.
+Example f223_field : field_laws 223 /\ pow_small_ok 223.
+Proof. apply C03_field_axioms_all. apply CurveSweep.prime_b_sound. vm_compute. reflexivity. Qed.
+Example toy_pow_negative : fmul toy (fpow toy 5 (-3)) (fpow toy 5 3) = 1. Proof. reflexivity. Qed.
+Example toy_rmul_raw_ge_n : rmul_raw toy (31 + 5) (G toy) = rmul toy 5 (G toy) /\ rmul_raw toy (2 ^ 70 + 3) (G toy) = rmul toy (2 ^ 70 + 3) (G toy).
+Proof. vm_compute. split; reflexivity. Qed.
+
+(* a curve WITH a point of order two: y^2 = x^3 + 7 over F_11 (a = 0, 11 = 3 mod 4), the point (5, 0) *)
+Definition c11 : curve := {| cp := 11; ca := 0; cb := 7; cn := 12; cgx := 2; cgy := 2 |}.
+Example c11_prime : prime (cp c11). Proof. apply CurveSweep.prime_b_sound. vm_compute. reflexivity. Qed.
+Example c11_y0_valid : valid c11 (Some (5, 0)). Proof. apply CurveSweep.validb_valid. vm_compute. reflexivity. Qed.
+Example c11_double_y0 : padd c11 (Some (5, 0)) (Some (5, 0)) = Ok None.
+Proof. exact (proj2 (C03_double_inf_iff c11 c11_prime eq_refl _ c11_y0_valid) (or_intror (ex_intro _ 5 eq_refl))). Qed.
+Example c11_compressed_y0_rejected := C03_sec_compressed_y0_rejected c11 c11_prime eq_refl eq_refl eq_refl 5 c11_y0_valid.
+Example c11_uncompressed_y0_ok : parse_sec c11 (4 :: to_be 32 5 ++ to_be 32 0) = Ok (Some (5, 0)).
+Proof. exact (proj1 (C03_sec_roundtrip_general c11 c11_prime eq_refl eq_refl eq_refl 5 0 false _ c11_y0_valid
+                      (fun H => False_ind _ (Bool.diff_false_true H)) eq_refl)). Qed.
+(* the object layer on concrete operands: F_5 vs F_7, two curves over F_43 *)
+Example obj_two_fields : fe_add (1, 5) (1, 7) = Err /\ fe_eqb (1, 5) (1, 7) = false.
+Proof. split; reflexivity. Qed.
+Example obj_two_curves : gp_add (inj toy (G toy)) {| gxy := None; ga := (0, 43); gb := (8, 43) |} = Err.
+Proof. vm_compute. reflexivity. Qed.
+Example obj_toy_add : gp_add (inj toy (G toy)) (inj toy (G toy)) = (R <- rmul toy 2 (G toy) ;; Ok (inj toy R)).
+Proof. vm_compute. reflexivity. Qed.
